@@ -34,7 +34,7 @@ pub fn kinds_of_layer(l: Layer) -> &'static [RK] {
         Ipv4Header | Ipv4Packet => &[RK::Ipv4],
         IpAuthHeader => &[RK::Ah],
         Ipv6Header | Ipv6Packet => &[RK::Ipv6],
-        Ipv6ExtHeader => &[RK::Hbh, RK::Dest, RK::Routing],
+        Ipv6ExtHeader => &[RK::Hbh, RK::Dest, RK::Routing, RK::Frag, RK::Ah],
         Ipv6HopByHopHeader => &[RK::Hbh],
         Ipv6DestOptionsHeader => &[RK::Dest],
         Ipv6RouteHeader => &[RK::Routing],
@@ -232,7 +232,7 @@ pub fn explain(e: &CErr, st: &RStop, strict_fields: bool) -> Result<(), String> 
                                 Fault::FieldAboveData { src: s, .. } => Some(*s),
                                 _ => None,
                             };
-                            if !strict_fields || *src == Src::Slice || st.avail_srcs.contains(src) || (in_layer == Some(*src) && *src == Src::ArpAddr) {
+                            if !strict_fields || *src == Src::Slice || st.avail_srcs.contains(src) || in_layer == Some(*src) {
                                 Ok(())
                             } else {
                                 Err(format!("len_source {:?} but only {:?} (or the slice) limit the layer to {} bytes", src, st.avail_srcs, st.avail))
